@@ -178,8 +178,10 @@ fn lookup_case(ctx: &mut Ctx, z: u8, x: u64, y: u64) {
     if let Ok(v) = guard(|| tile_id(z, x, y)) {
         ids.push(v);
     }
-    // ids a wrapping zoom base would produce
+    // ids a wrapping zoom base would produce, and ids an implementation might use as an "invalid" sentinel
+    // (add_tile accepts any u64, so tiles may legitimately be stored under them)
     ids.push(0);
+    ids.extend([u64::MAX, u64::MAX - 1, 1 << 63, i64::MAX as u64, u64::from(u32::MAX), R::zoom_base(32)]);
     ids.sort_unstable();
     ids.dedup();
     let mat = json!({"z": z, "x": x, "y": y, "archive_ids": ids, "in_grid": in_grid});
